@@ -356,6 +356,7 @@ def oracle_e2e(ctx) -> None:
     skipped_raise = 0
     differing = 0
     real_prune = filters.prune_files_by_bounds
+    retried = [0]
     for t in range(ntables):
         cols = rng.sample(kinds, rng.choice([1, 2, 3]))
         if t % 4 == 0:
@@ -367,13 +368,36 @@ def oracle_e2e(ctx) -> None:
         path = os.path.join(ctx.scratch, f"t{t}")
         table = create_table(path, schema)
         files = []
+        retried_flags: List[bool] = []
         for _ in range(rng.choice([1, 2, 3, 4])):
+            before_retried = retried[0]
             recs = [{f"c{i}": _rand_value(rng, k) for i, k in enumerate(cols)} for _ in range(rng.choice([1, 2, 3, 5]))]
             if rng.random() < 0.3:
                 v = {f"c{i}": _rand_value(rng, k) for i, k in enumerate(cols)}
                 recs = [dict(v) for _ in recs]     # single-valued file
-            table.append_records(recs)
+            if rng.random() < 0.35:
+                # the commit loses one optimistic-concurrency race and is retried (the manifests are rebuilt from the same
+                # in-memory DataFile objects): bounds must survive the second encoding exactly like the first
+                from datashard.metadata_manager import ConcurrentModificationException
+                mm_ = table.metadata_manager
+                real_commit = mm_.commit
+                fired = [False]
+
+                def flaky_commit(base: Any, new: Any, _rc=real_commit, _f=fired) -> Any:
+                    if not _f[0]:
+                        _f[0] = True
+                        raise ConcurrentModificationException("injected: lost the race once")
+                    return _rc(base, new)
+                mm_.commit = flaky_commit
+                try:
+                    table.append_records(recs)
+                finally:
+                    mm_.commit = real_commit
+                retried[0] += 1
+            else:
+                table.append_records(recs)
             files.append(recs)
+            retried_flags.append(retried[0] > before_retried)
         # directed: the null tests on EVERY column (columns without stored bounds included), alone and next to a comparison
         directed = []
         for i in range(len(cols)):
@@ -450,12 +474,14 @@ def oracle_e2e(ctx) -> None:
                 differing += 1
                 ctx.violation("scan-differs:" + ",".join(sorted({str(v[0]) for v in flt.values()})),
                               f"scan with pruning differs from scan without for filter {flt!r}",
-                              {"schema": fields, "files": [[{k: val_json(v) for k, v in r.items()} for r in f] for f in files],
+                              {"e2e": True, "retried": list(retried_flags),
+                               "schema": fields, "files": [[{k: val_json(v) for k, v in r.items()} for r in f] for f in files],
                                "filter": {k: [v[0], val_json(v[1])] for k, v in flt.items()},
                                "pruned": repr(pruned)[:500], "unpruned": repr(unpruned)[:500]})
         shutil.rmtree(path, ignore_errors=True)
     ctx.count(total)
     ctx.stats["e2e_scans"] = total
+    ctx.stats["e2e_appends_committed_after_one_retry"] = retried[0]
     ctx.stats["e2e_unpruned_raises_skipped"] = skipped_raise
     ctx.stats["e2e_differing"] = differing
 
@@ -536,6 +562,51 @@ def replay(ctx, payload) -> int:
         lit = val_unjson(case["literal"])
         bad = unsound_case(case["kind"], vs, case["op"], lit)
         print("replay:", "STILL FAILS " + repr(bad) if bad else "passes now")
+        return 1 if bad else 0
+    if case.get("e2e"):
+        from datashard import create_table, filters
+        from datashard.data_structures import Schema
+        from datashard.metadata_manager import ConcurrentModificationException
+        path = os.path.join(ctx.scratch, "replay-e2e")
+        shutil.rmtree(path, ignore_errors=True)
+        table = create_table(path, Schema(schema_id=1, fields=case["schema"]))
+        for fi, f in enumerate(case["files"]):
+            recs = [{k: val_unjson(v) for k, v in r.items()} for r in f]
+            if fi < len(case.get("retried", [])) and case["retried"][fi]:
+                real_commit = table.metadata_manager.commit
+                fired = [False]
+
+                def flaky(base: Any, new: Any, _rc=real_commit, _f=fired) -> Any:
+                    if not _f[0]:
+                        _f[0] = True
+                        raise ConcurrentModificationException("injected: lost the race once")
+                    return _rc(base, new)
+                table.metadata_manager.commit = flaky
+                try:
+                    table.append_records(recs)
+                finally:
+                    table.metadata_manager.commit = real_commit
+            else:
+                table.append_records(recs)
+        flt = {}
+        for k, v in case["filter"].items():
+            lit = val_unjson(v[1])
+            if v[0] == "between":
+                lit = tuple(lit)
+            flt[k] = (v[0], lit)
+        real_prune = filters.prune_files_by_bounds
+        filters.prune_files_by_bounds = lambda data_files, expressions, schema: data_files
+        try:
+            unpruned = table.scan(filter=flt)
+        finally:
+            filters.prune_files_by_bounds = real_prune
+        try:
+            pruned = table.scan(filter=flt)
+        except Exception as e:      # noqa: BLE001
+            pruned = ("raises", repr(e)[:200])
+        key_rows = lambda rows: sorted(repr(sorted((k, repr(v)) for k, v in r.items())) for r in rows)
+        bad = isinstance(pruned, tuple) or key_rows(pruned) != key_rows(unpruned)
+        print("replay:", f"STILL FAILS: pruned {str(pruned)[:200]} vs unpruned {str(unpruned)[:200]}" if bad else "passes now")
         return 1 if bad else 0
     print("replay: payload kind not replayable directly; re-run ./bin/check C13 thorough")
     return 2
